@@ -253,7 +253,8 @@ class DeleteBlock(CircuitContract):
 
 def contracts():
     from .c19_rename import RenameGate
-    return [RenameGate(), UserPrim('_add_user'), UserPrim('_remove_user'),
+    from .c14_loop import IntoBench
+    return [RenameGate(), IntoBench(), UserPrim('_add_user'), UserPrim('_remove_user'),
             AddGateLike('_emplace_gate', False), AddGateLike('_add_gate', False), AddGateLike('emplace_gate', True), AddGateLike('add_gate', True),
             RemoveGate(), MarkAsOutput(), SetOutputs(), DeleteBlock()]
 
@@ -267,8 +268,8 @@ def run(rep):
     for a in STD_ASSUME:
         rep.assume(a)
     rep.assume('P covers _add_user, _remove_user, _emplace_gate, _add_gate, emplace_gate, add_gate, remove_gate/_remove_gate, rename_gate, mark_as_output, set_outputs, delete_block; '
-               'the remaining mutators (set_inputs, add_inputs, replace_inputs, order_*, make_block*, connect_circuit family, replace_subcircuit, remove_block, into_bench loop, __copy__) are bounded-only here '
-               '(into_bench per gate: C14)')
+               'the remaining mutators (set_inputs, add_inputs, replace_inputs [C19], order_*, make_block*, connect_circuit family, replace_subcircuit, remove_block, __copy__) are bounded-only here '
+               '(into_bench: loop proved here against the contract of convert_gate, whose clauses are discharged per gate type under C14)')
     it = new_interp()
     pv = Prover(rep, it, 'C02')
     for c in contracts():
